@@ -105,6 +105,17 @@ def case_total(s):
     if a.tokens != toks:
         out.append(("total|StringArgs-tokens-differ", "StringArgs(%r).tokens = %r, TokenParser gives %r" % (s, a.tokens, toks)))
     out += _option_token_failures("StringArgs", a, toks, "StringArgs(%r)" % (s,))
+    # the token list handed out belongs to that object: editing it in place (as the help resolver does with a leading
+    # 'help') says nothing about the next tokenisation of the same string
+    try:
+        mine = a.tokens
+        mine.append("edited-by-the-caller")
+        b = StringArgs(s)
+        if b.tokens != toks or b.tokens is mine:
+            out.append(("total|second-StringArgs-of-the-same-string-differs", "after an in-place edit of StringArgs(%r).tokens a new "
+                        "StringArgs of that string has tokens %r, TokenParser gives %r" % (s, b.tokens, toks)))
+    except Exception as e:
+        out.append(("total|second-StringArgs-%s" % type(e).__name__, "a second StringArgs(%r) raised %r" % (s, e)))
     return out
 
 
